@@ -472,7 +472,7 @@ func Extract(hi, lo int, a *Term) *Term {
 	switch a.op {
 	case "uf":
 		// key axiom as a rewrite rule: the low 160 bits of keccak_64(@pub:j) are the address atom @addr:j
-		if os.Getenv("SYMGO_KEYREWRITE") != "" && a.name == "keccak_64" && hi < 160 && a.args[0].op == "var" && strings.HasPrefix(a.args[0].name, "@pub:") {
+		if os.Getenv("SYMGO_NOKEYREWRITE") == "" && a.name == "keccak_64" && hi < 160 && a.args[0].op == "var" && strings.HasPrefix(a.args[0].name, "@pub:") {
 			return Extract(hi, lo, Var("@addr:"+a.args[0].name[5:], BV(160)))
 		}
 	case "concat":
